@@ -5,6 +5,8 @@ import (
 	"encoding/json"
 	"errors"
 	"fmt"
+	"io"
+	"net/http"
 	"net/http/httptest"
 	"os"
 	"sort"
@@ -26,6 +28,9 @@ type C06Case struct {
 	// defaults on read-only properties only, which a request reading must not apply (and does not
 	// validate), so the model - which does not inject defaults - answers for them unchanged.
 	Defaults bool `json:"defaults,omitempty"`
+	// "": httptest.NewRequest over a strings.Reader; "reader": http.NewRequest over a reader of unknown type
+	// (ContentLength stays 0, which means unknown, with a body that is there)
+	BodyVia string `json:"body_via,omitempty"`
 }
 
 type C06Obs struct {
@@ -61,6 +66,10 @@ func runC06(c *C06Case) C06Obs {
 	doc.Paths.Set("/b", item)
 	route := &routers.Route{Spec: doc, Path: "/b", PathItem: item, Method: "POST", Operation: op}
 	req := httptest.NewRequest("POST", "/b", strings.NewReader(c.Body))
+	if c.BodyVia == "reader" && c.Body != "" {
+		half := len(c.Body) / 2
+		req, _ = http.NewRequest("POST", "/b", io.MultiReader(strings.NewReader(c.Body[:half]), strings.NewReader(c.Body[half:])))
+	}
 	if c.CT != "" {
 		req.Header.Set("Content-Type", c.CT)
 	}
@@ -185,6 +194,9 @@ func c06Random(r *Rng) C06Case {
 		}
 	}
 	c.CT = Pick(r, c08CTs)
+	if r.Chance(15) {
+		c.BodyVia = "reader"
+	}
 	if !c.ExclRO && r.Chance(30) {
 		c.Defaults = true
 		for _, ck := range sortedKeys(c.Content) {
